@@ -772,6 +772,18 @@ def _(d):
         g.slice
 
 
+@spec("grid.apply_inplace_function", "gis")
+def _(d):
+    # the function handed to apply works in place on what it receives (a
+    # common way of censoring before a square root or a logarithm)
+    def censor_sqrt(x):
+        x[x < 0] = 0
+        return np.sqrt(x)
+    return [_field(d)], lambda g: [g.apply(censor_sqrt),
+                                   g.apply(lambda x: np.sort(x, axis=0)),
+                                   g.apply(np.nan_to_num, copy=False)]
+
+
 @spec("grid.clip", "gis")
 def _(d):
     return [_field(d)], lambda g: g.clip(0.5, 0.5, 2.5, 2.5)
